@@ -54,16 +54,29 @@ func genOneDag(t *rapid.T) dagCase {
 			c.DupOf[i] = d
 			// an equal fetch below another producer has other dependencies (repaired finding:
 			// de-duplication used to keep only the survivor's)
-			// (its producers are drawn from the fetches before the original, so that merging
-			// the two cannot close a cycle)
-			if d == 0 || rapid.Bool().Draw(t, "dupsamedeps") {
+			// (its producers may even depend on the original: the two then cannot be merged at
+			// all - merging them closed a dependency cycle and overflowed the stack in an earlier
+			// version of repair b4c3a13, found by the C16 thorough tier)
+			if rapid.Bool().Draw(t, "dupsamedeps") {
 				c.Deps[i] = append([]int{}, c.Deps[d]...)
 				continue
 			}
 			k := rapid.IntRange(0, 2).Draw(t, "dk")
 			seen := map[int]bool{}
 			for j := 0; j < k; j++ {
-				x := rapid.IntRange(0, d-1).Draw(t, "dd")
+				// with nested response paths a producer below the duplicate's own path would be
+				// a fetch that depends on its own child (no plan has that): only earlier ones then
+				hi := i - 1
+				if c.Nest {
+					hi = d - 1
+				}
+				if hi < 0 {
+					continue
+				}
+				x := rapid.IntRange(0, hi).Draw(t, "dd")
+				if x == d {
+					continue
+				}
 				if !seen[x] {
 					seen[x] = true
 					c.Deps[i] = append(c.Deps[i], x)
@@ -217,33 +230,40 @@ func checkDag(c dagCase, o *pbt.Rec) pbt.Verdict {
 		} else if len(dangling) > 0 {
 			return pbt.Bad("%s: dependencies on fetches that are not in the tree: %v: %s", mode, dangling, ftree.Dump(root))
 		}
-		// the ORIGINAL edges, through the surviving duplicate, must still be ordered
-		survivorOf := func(i int) int {
-			if _, ok := leaves[i]; ok {
-				return i
-			}
-			for j := 0; j < n; j++ {
-				if _, ok := leaves[j]; ok && rep(j) == rep(i) {
-					return j
-				}
-			}
-			return -1
-		}
+		// the ORIGINAL edges must still be honoured: for every planned fetch f some surviving
+		// fetch equal to it (f itself or a duplicate; several members of one duplicate group can
+		// survive when one depends on another) depends, for every planned dependency d of f, on
+		// a surviving fetch equal to d
 		for f := 0; f < n; f++ {
-			for _, d := range c.Deps[f] {
-				sf, sd := survivorOf(f), survivorOf(d)
-				if sf < 0 || sd < 0 || sf == sd {
+			if len(c.Deps[f]) == 0 {
+				continue
+			}
+			okSome := false
+			for cand, cl := range leaves {
+				if rep(cand) != rep(f) {
 					continue
 				}
-				found := false
-				for _, x := range leaves[sf].Deps {
-					if x == sd || (survivorOf(x) == sd) {
-						found = true
+				all := true
+				for _, d := range c.Deps[f] {
+					if rep(d) == rep(cand) {
+						continue
+					}
+					found := false
+					for _, x := range cl.Deps {
+						if x >= 0 && x < n && rep(x) == rep(d) {
+							found = true
+						}
+					}
+					if !found {
+						all = false
 					}
 				}
-				if !found {
-					return pbt.Bad("%s: the dependency %d -> %d of the input was lost (survivors %d -> %d): %s", mode, d, f, sd, sf, ftree.Dump(root))
+				if all {
+					okSome = true
 				}
+			}
+			if !okSome {
+				return pbt.Bad("%s: no surviving fetch equal to fetch %d depends on (fetches equal to) all of its planned dependencies %v: %s", mode, f, c.Deps[f], ftree.Dump(root))
 			}
 		}
 		if strings.Contains(ftree.Dump(root), "Par(") {
